@@ -1,3 +1,3 @@
 From Coq Require Import ExtrOcamlBasic.
-From PTK Require Import Lib.Sx Model.C10_Screen Model.C10_Producers Model.C10_Wire Model.C10_Print.
-Extraction "c10_model.ml" run_C10pr.
+From PTK Require Import Lib.Sx Model.C10_Screen Model.C10_Producers Model.C10_Wire Model.C10_Print Model.C10_Procs.
+Extraction "c10_model.ml" run_C10q.
